@@ -426,6 +426,7 @@ def check(repo, run, tier):
     g(unitrules.path_node_tables, repo, run, 'C06.R6')
     g(unitrules.tag_spec, repo, run, 'C06.R2', ['!include', '!rec', '!path', '!path:'])
     g(unitrules.current_file_tracking, repo, run, 'C06.R10')
+    g(unitrules.add_source_table, repo, run, 'C06.R2')
     g.done()
 
 
@@ -443,6 +444,9 @@ def merge_two(r):
 
 def mutants(repo):
     return [
+        Mutant('unexpected-os-errors-swallowed', lambda r: in_func(r, 'Builder.add_source', "e.errno not in [22, 36]", "e.errno in [22, 36]"), ['C06.R2']),
+        Mutant('missing-file-is-yaml-even-when-a-file-was-asked-for', lambda r: in_func(r, 'Builder.add_source', "                if raw_yaml is not None:\n                    raise\n", "                pass\n"), ['C06.R2']),
+        Mutant('empty-documents-become-stages', lambda r: in_func(r, 'Builder.add_source', "                        if node is not None:\n                            self.stages.append(node)", "                        self.stages.append(node)"), ['C06.R2']),
         Mutant('opened-file-not-recorded', lambda r: in_func(r, 'Builder.add_source', "                    self._current_file = source\n", "                    pass\n"), ['C06.R10']),
         Mutant('multi-constructors-not-registered', lambda r: in_func(r, 'yaml.add_multi_constructor', "    yaml.add_multi_constructor(tag, constructor, Loader=AwesomeyamlLoader)", "    pass"), ['C06.R2']),
         Mutant('parent-clamp-negated', lambda r: in_func(r, 'PathNode.ayns.on_evaluate_impl', "if ref_point_args >= len(src.parents):", "if not ref_point_args >= len(src.parents):"), ['C06.R6']),
